@@ -297,7 +297,7 @@ def D4d(vc):
         'execution.execute_handlers_once': execute_handlers_once,
         'application.patch_and_check': patch_and_check,
         'patches.Patch': Patch,
-    }, loops={1: LoopSpec('while not stopper.is_set() and not state.done', name='retry loop', invariant=inv, havoc=havoc,
+    }, loops={1: LoopSpec('while ', name='retry loop', invariant=inv, havoc=havoc,
                           at_entry=at_entry, at_backedge=at_back, on_exit=on_exit,
                           dedup_key=lambda loc: ())})
     vc.used('execution.execute_handlers_once', 'X2'); vc.used('application.patch_and_check', 'A2')
@@ -308,3 +308,646 @@ def D4d(vc):
         return ('cancelled', G.runs)
     vc.ensure('exits_only_when_stopped_or_done', escaped is None and result is None)
     return ('returned', G.runs)
+
+
+# =============================================================================================== H9
+class _FreshState:
+    """progression.State by contract G3: from_scratch() is the empty state (nothing restored from the object);
+    with_handlers(hs) makes every handler of hs due at once (no record: not finished, not sleeping)."""
+    def __init__(self, vc, tag, parent=None, args=()):
+        self.vc, self.tag, self.parent, self.args = vc, tag, parent, args
+
+    def with_handlers(self, handlers):
+        return _FreshState(self.vc, 'with_handlers', self, (handlers,))
+
+    def with_outcomes(self, outcomes):
+        return _FreshState(self.vc, 'with_outcomes', self, (outcomes,))
+
+    def with_purpose(self, *a, **kw):
+        return _FreshState(self.vc, 'with_purpose', self, a)
+
+    def store(self, **kw): self.vc.emit('state.store', self, kw)
+    def purge(self, **kw): self.vc.emit('state.purge', self, kw)
+
+
+@harness('H9', targets='kopf._core.reactor.processing.process_watching_cause', props=['C07', 'C15', 'C11'],
+         clauses=['handlers_of_the_watching_registry', 'executed_once_all_fresh', 'errors_ignored', 'results_delivered',
+                  'nothing_persisted', 'never_waits', 'errors_propagate'],
+         canaries=['canary.always_returns'],
+         trusted=['registry._watching.get_handlers by contract R4/R3 (exactly the handlers whose criteria hold for the cause)',
+                  'execution.execute_handlers_once by contract X2/X1 (default_errors: the mode of handlers that declare none)',
+                  'progression.State.from_scratch/with_handlers by contract G3', 'progression.deliver_results by contract: writes the results into the patch given'],
+         assumes=['the call site passes lifecycle=lifecycles.all_at_once (process_resource_causes); the function hands the lifecycle on as given'],
+         clause_props={'handlers_of_the_watching_registry': ['C15'], 'executed_once_all_fresh': ['C15', 'C11'], 'errors_ignored': ['C11'],
+                       'never_waits': ['C07'], 'nothing_persisted': ['C11', 'C15'], 'results_delivered': ['C15'], 'errors_propagate': ['C11']})
+def H9(vc):
+    """
+    process_watching_cause (raw-event handlers, docs/handlers.rst "Event-watching handlers": invoked for every event;
+    "if the event handler fails, the error is logged and then ignored"):
+      handlers_of_the_watching_registry  the handlers are registry._watching.get_handlers(cause=<the cause given>), asked once;
+                              no other registry is consulted;
+      executed_once_all_fresh exactly one execute_handlers_once, over exactly those handlers, with the cause, settings and
+                              lifecycle given, against State.from_scratch().with_handlers(<those handlers>) -- nothing is
+                              restored from the object, so every selected handler is due on every event;
+      errors_ignored          default_errors=ErrorsMode.IGNORED: a failing raw-event handler counts as done, never retried;
+      results_delivered       the outcomes' results go into cause.patch (deliver_results(outcomes, patch=cause.patch)), after
+                              the execution, once;
+      nothing_persisted       no progress is stored or purged, nothing is read from a storage;
+      never_waits             (C07) the only suspension is the execution of the handlers: no consistency wait, no sleep;
+      errors_propagate        an exception out of execute_handlers_once (cancellation) is not swallowed and nothing is delivered.
+    """
+    lifecycle, settings = Opaque('lifecycle'), Opaque('settings')
+    patch = Opaque('cause.patch', truth=vc.bool('patch non-empty'))
+    cause = Opaque('watching-cause', patch=patch, logger=NullLogger(), body=Opaque('body'))
+    selected = Opaque('watching-handlers', truth=vc.bool('some raw-event handler matches'))
+
+    def reg(name, result):
+        def get_handlers(*a, **kw):
+            kw.update(zip(('cause', 'excluded'), a))
+            vc.emit('get_handlers', name, kw)
+            return result
+        return Opaque(name, get_handlers=get_handlers, get_resource_handlers=get_handlers)
+    registry = Opaque('registry', _watching=reg('_watching', selected), _changing=reg('_changing', Opaque('changing-handlers')),
+                      _spawning=reg('_spawning', Opaque('spawning-handlers')), _indexing=reg('_indexing', Opaque('indexing-handlers')))
+    scratch = _FreshState(vc, 'from_scratch')
+    outcomes = Opaque('outcomes')
+    st = Ghost(boom=None, susp=[])
+
+    class StateCls:
+        @staticmethod
+        def from_scratch():
+            return scratch
+
+        @staticmethod
+        def from_storage(**kw):
+            vc.emit('from_storage', kw)
+            return _FreshState(vc, 'from_storage')
+
+    async def execute_handlers_once(**kw):
+        vc.emit('execute', kw)
+        await suspend('execute_handlers_once')
+        if vc.nondet(2, 'execute_handlers_once: returns / is cancelled') == 1:
+            st.boom = asyncio.CancelledError()
+            raise st.boom
+        return outcomes
+
+    async def sleep(*a, **kw):
+        vc.emit('sleep', a, kw)
+        await suspend('sleep')
+    vc.used('execution.execute_handlers_once', 'X2'); vc.used('progression.State', 'G3'); vc.used('registries.ResourceRegistry.get_handlers', 'R4')
+    ld = vc.load('kopf._core.reactor.processing', 'process_watching_cause', stubs={
+        'progression.State': StateCls, 'execution.execute_handlers_once': execute_handlers_once,
+        'progression.deliver_results': lambda **kw: vc.emit('deliver_results', kw),
+        'aiotime.sleep': sleep, 'asyncio.sleep': sleep})
+    result, escaped = _run(vc, ld.fn(lifecycle=lifecycle, registry=registry, settings=settings, cause=cause),
+                           lambda site: st.susp.append(site))
+    tr = vc.trace
+    names = names_of(tr)
+    gets = [ev for ev in tr if ev[0] == 'get_handlers']
+    vc.ensure('handlers_of_the_watching_registry', len(gets) == 1 and gets[0][1] == '_watching' and gets[0][2].get('cause') is cause
+              and not gets[0][2].get('excluded'))
+    runs = [ev[1] for ev in tr if ev[0] == 'execute']
+    some = selected._truth          # with no matching handler there is nothing to execute or deliver: both ways are fine
+    vc.ensure('executed_once_all_fresh', len(runs) <= 1)
+    vc.ensure('executed_once_all_fresh', Implies(some, len(runs) == 1))
+    for kw in runs:
+        s = kw.get('state')
+        vc.ensure('executed_once_all_fresh', kw.get('handlers') is selected and kw.get('cause') is cause and kw.get('settings') is settings
+                  and kw.get('lifecycle') is lifecycle)
+        vc.ensure('executed_once_all_fresh', isinstance(s, _FreshState) and s.tag == 'with_handlers' and s.parent is scratch
+                  and s.args[0] is selected)
+        vc.ensure('errors_ignored', kw.get('default_errors') is EM.IGNORED)
+    vc.ensure('nothing_persisted', not any(n in ('state.store', 'state.purge', 'from_storage') for n in names))
+    vc.ensure('never_waits', st.susp == ['execute_handlers_once'] * len(runs) and 'sleep' not in names)
+    vc.canary('canary.always_returns', escaped is None)
+    if st.boom is not None:
+        vc.ensure('errors_propagate', escaped is st.boom and 'deliver_results' not in names)
+        return ('raise', type(escaped).__name__)
+    vc.ensure('errors_propagate', escaped is None and result is None)
+    dels = [ev[1] for ev in tr if ev[0] == 'deliver_results']
+    vc.ensure('results_delivered', len(dels) <= len(runs))
+    vc.ensure('results_delivered', Implies(some, len(dels) == 1))
+    for kw in dels:
+        vc.ensure('results_delivered', kw.get('outcomes') is outcomes and kw.get('patch') is patch
+                  and names.index('deliver_results') > names.index('execute'))
+    return ('return', len(runs))
+
+
+# =============================================================================================== X4
+class CtxVar:
+    """contextvars.ContextVar by contract: get([default]) (LookupError when unset and no default), set(v) -> token,
+    reset(token) restores what was there before that set()."""
+    _UNSET = object()
+
+    def __init__(self, vc, name, *value):
+        self.vc, self.name = vc, name
+        self.value = value[0] if value else CtxVar._UNSET
+
+    def get(self, *default):
+        if self.value is CtxVar._UNSET:
+            if default:
+                return default[0]
+            raise LookupError(self.name)
+        return self.value
+
+    def set(self, value):
+        token = (self, self.value)
+        self.value = value
+        self.vc.emit('var.set', self.name, value)
+        return token
+
+    def reset(self, token):
+        if token[0] is not self:
+            raise ValueError('token of another variable')
+        self.value = token[1]
+        self.vc.emit('var.reset', self.name)
+
+
+@harness('X4', targets='kopf._core.actions.execution.invoke_handler', props=['C02', 'C11', 'C04'],
+         clauses=['adjusted_cause_used', 'context_during_call', 'context_at_extra_exit', 'context_restored', 'invoked_once_as_given',
+                  'inside_extra_context', 'result_returned', 'exceptions_propagate_unchanged'],
+         canaries=['canary.never_raises', 'canary.cause_never_adjusted'],
+         trusted=['Handler.adjust_cause by contract E3 (returns the cause itself, or a copy with old/new/diff narrowed to the handler\'s field)',
+                  'invocation.invoke by contract: calls fn once with kwargs | kwargsrc\'s kwargs; returns its result or raises what it raises',
+                  'invocation.context (real code, inlined) over contextvars by contract (CtxVar)',
+                  'extra_context(): an async context manager; its exit may raise (subhandling_context: HandlerChildrenRetry, H8c)'],
+         clause_props={'adjusted_cause_used': ['C04'], 'invoked_once_as_given': ['C11', 'C02'], 'context_during_call': ['C02'],
+                       'context_at_extra_exit': ['C02'], 'context_restored': ['C02'], 'inside_extra_context': ['C02'],
+                       'result_returned': ['C02', 'C11'], 'exceptions_propagate_unchanged': ['C11', 'C02']})
+def X4(vc):
+    """
+    execution.invoke_handler:
+      adjusted_cause_used     (C04) handler.adjust_cause(<the cause given>) is applied once, before the invocation, and the
+                              function's kwargs come from its result (field handlers get field-narrowed old/new/diff);
+      invoked_once_as_given   (C11, C02) invocation.invoke is called exactly once, with handler.fn, the settings, and exactly
+                              param=handler.param, retry=<retry given>, started=<started given>, runtime=<runtime given>;
+      context_during_call     (C02) while the function runs (and, context_at_extra_exit, while the extra context exits --
+                              that is where the implicit sub-handler execution happens) the task-local context says:
+                              handler_var = this handler, cause_var = the (adjusted) cause, subsettings_var = settings,
+                              sublifecycle_var = lifecycle, subrefs_var = every container of the enclosing handlers plus this
+                              invocation's own `subrefs` container;
+      context_restored        afterwards -- return or exception -- every variable is what it was before (unset stays unset);
+      inside_extra_context    the invocation happens inside `async with extra_context()`: entered once before, exited once
+                              after, the exit sees the exception if there is one;
+      result_returned         the function's result is returned as is (None stays None, {} stays {});
+      exceptions_propagate_unchanged  whatever the function or the extra context's exit raises leaves invoke_handler as the
+                              very same exception object (classification is X1's job).
+    """
+    settings = Opaque('settings')
+    lifecycle = [None, Opaque('lifecycle')][vc.nondet(2, 'lifecycle given?')]
+    cause = Opaque('cause')
+    adjusted = [cause, Opaque('field-adjusted-cause')][vc.nondet(2, 'adjust_cause: same cause / a narrowed copy')]
+    fn, param = Opaque('fn'), [None, Opaque('param')][vc.nondet(2, 'param given?')]
+    retry, started, runtime = vc.int('retry'), Opaque('started'), Opaque('runtime')
+    subrefs = set()
+    outer_kind = vc.nondet(3, 'subrefs_var: unset / empty / two outer containers')
+    outer = [None, [], [{'grand/x'}, set()]][outer_kind]
+    adjust_calls = []
+
+    class Handler:
+        id = 'h'
+
+        def adjust_cause(self, c):
+            adjust_calls.append((c, len(vc.trace)))
+            vc.emit('adjust_cause', c)
+            return adjusted
+    Handler.fn, Handler.param = fn, param
+    handler = Handler()
+    prior = {'sublifecycle_var': [Opaque('outer-lifecycle')], 'subsettings_var': [Opaque('outer-settings')], 'handler_var': [Opaque('outer-handler')],
+             'cause_var': [Opaque('outer-cause')]} if outer_kind else {'sublifecycle_var': [], 'subsettings_var': [], 'handler_var': [], 'cause_var': []}
+    prior['subrefs_var'] = [] if outer is None else [outer]
+    cells = {k: CtxVar(vc, k, *v) for k, v in prior.items()}
+
+    def snapshot():
+        return {k: c.value for k, c in cells.items()}
+    before = snapshot()
+    st = Ghost(raised=None, value=None, at_call=None, at_exit=None, exit_exc='unset')
+    kinds = ['None', 'object', 'empty-dict', 'cancelled', 'temporary', 'permanent', 'children-retry', 'other', 'base-other']
+    exit_raises = vc.nondet(2, 'the extra context\'s exit raises HandlerChildrenRetry (unfinished sub-handlers)?') == 1
+
+    async def invoke(f, **kw):
+        st.at_call = snapshot()
+        vc.emit('invoke', f, kw)
+        await suspend('invoke')
+        k = kinds[vc.nondet(len(kinds), 'the function: returns None / an object / {} / raises ...')]
+        if k in ('None', 'object', 'empty-dict'):
+            st.value = {'None': None, 'object': Opaque('result'), 'empty-dict': {}}[k]
+            return st.value
+        st.raised = {'cancelled': asyncio.CancelledError(), 'temporary': execution.TemporaryError('t', delay=1),
+                     'permanent': execution.PermanentError('p'), 'children-retry': execution.HandlerChildrenRetry('c', delay=None),
+                     'other': _Other('o'), 'base-other': _BaseOther('b')}[k]
+        raise st.raised
+
+    class Extra:
+        async def __aenter__(self):
+            vc.emit('extra.enter')
+
+        async def __aexit__(self, et, e, tb):
+            st.at_exit = snapshot()
+            st.exit_exc = e
+            vc.emit('extra.exit', e)
+            if e is None and exit_raises:
+                st.raised = execution.HandlerChildrenRetry('unfinished sub-handlers', delay=vc.opt('children.delay', vc.real))
+                raise st.raised
+            return False
+
+    def extra_context():
+        vc.emit('extra.made')
+        return Extra()
+    stubs = dict(cells)
+    stubs['invocation.invoke'] = invoke
+    ld = vc.load('kopf._core.actions.execution', 'invoke_handler', stubs=stubs)
+    out, escaped = _run(vc, ld.fn(handler=handler, cause=cause, retry=retry, started=started, runtime=runtime, settings=settings,
+                                  lifecycle=lifecycle, subrefs=subrefs, extra_context=extra_context))
+    tr = vc.trace
+    names = [n for n in names_of(tr) if not n.startswith('var.')]
+    calls = [ev for ev in tr if ev[0] == 'invoke']
+    # -- C04
+    vc.ensure('adjusted_cause_used', len(adjust_calls) == 1 and adjust_calls[0][0] is cause)
+    vc.ensure('adjusted_cause_used', len(calls) == 1 and calls[0][2].get('kwargsrc') is adjusted)
+    if calls and adjust_calls:
+        vc.ensure('adjusted_cause_used', names.index('adjust_cause') < names.index('invoke'))
+    vc.canary('canary.cause_never_adjusted', bool(calls) and calls[0][2].get('kwargsrc') is cause)
+    # -- one invocation, as given
+    vc.ensure('invoked_once_as_given', len(calls) == 1)
+    for ev in calls:
+        kw = ev[2]
+        kws = kw.get('kwargs') or {}
+        vc.ensure('invoked_once_as_given', ev[1] is fn and kw.get('settings') is settings and set(kw) <= {'settings', 'kwargsrc', 'kwargs'})
+        vc.ensure('invoked_once_as_given', set(kws) == {'param', 'retry', 'started', 'runtime'} and kws.get('param') is param
+                  and kws.get('retry') is retry and kws.get('started') is started and kws.get('runtime') is runtime)
+    vc.ensure('inside_extra_context', names.count('extra.enter') == 1 and names.count('extra.exit') == 1
+              and names.index('extra.enter') < names.index('invoke') < names.index('extra.exit')
+              if calls and 'extra.enter' in names and 'extra.exit' in names else False)
+    invoked_raised = st.raised if not (st.exit_exc is None and exit_raises) else None
+    vc.ensure('inside_extra_context', st.exit_exc is invoked_raised)
+
+    # -- the context while the function runs / while the extra context exits
+    def context_ok(snap):
+        if snap is None:
+            return False
+        refs = snap['subrefs_var']
+        refs_ok = refs is not CtxVar._UNSET and any(r is subrefs for r in refs) and all(any(r is o for r in refs) for o in (outer or []))
+        return (snap['handler_var'] is handler and (snap['cause_var'] is adjusted or snap['cause_var'] is cause)
+                and snap['subsettings_var'] is settings and snap['sublifecycle_var'] is lifecycle and refs_ok)
+    vc.ensure('context_during_call', context_ok(st.at_call))
+    vc.ensure('context_at_extra_exit', context_ok(st.at_exit))
+    after = snapshot()
+    vc.ensure('context_restored', all(after[k] is before[k] for k in before))
+    vc.ensure('context_restored', outer is None or (len(outer) == (0 if outer_kind == 1 else 2) and subrefs == set()))
+    # -- outcome
+    vc.canary('canary.never_raises', escaped is None)
+    if st.raised is not None:
+        vc.ensure('exceptions_propagate_unchanged', escaped is st.raised)
+        return ('raise', type(escaped).__name__)
+    vc.ensure('exceptions_propagate_unchanged', escaped is None)
+    vc.ensure('result_returned', out is st.value)
+    return ('return', type(out).__name__)
+
+
+# =============================================================================================== N4
+class _HId(str):
+    """ids.HandlerId is a NewType of str; a str subclass makes `str(handler_id)` observable"""
+
+
+@harness('N4', targets=['kopf._core.engines.activities.authenticate', 'kopf._core.engines.activities.authenticator'],
+         props=['C12', 'C20'],
+         clauses=['auth.waits_for_emptiness_first', 'auth.runs_the_authentication_activity', 'auth.populates_with_the_results',
+                  'auth.returns_only_after_populate', 'auth.failure_escalates',
+                  'loop.one_authentication_per_round', 'loop.same_vault_and_registry', 'loop.failure_escalates', 'loop.never_returns'],
+         canaries=['canary.auth.never_fails', 'canary.auth.always_credentials', 'canary.loop.never_fails'],
+         trusted=['credentials.Vault by contract N3: wait_for_emptiness() returns only while the vault is not ready (invalidated/never '
+                  'populated); populate(d) admits d and makes the vault ready, releasing the blocked API calls (which fail with '
+                  'LoginError if it is still empty)', 'activities.run_activity by contract U2a (results by handler id, or ActivityError)'],
+         assumes=['login handlers\' ids are strings (ids.HandlerId)'])
+def N4(vc):
+    """
+    The re-authentication loop (docs/authentication.rst: "When the vault is fully depleted, it freezes all the API calls and
+    triggers the login handlers for re-authentication ... all the credentials are gathered from all the active handlers ... In
+    case the vault is depleted and no new credentials are provided by the login handlers, the API calls fail, and so does the
+    operator").
+    authenticate (one round):
+      auth.waits_for_emptiness_first      nothing happens before vault.wait_for_emptiness() has returned (one re-authentication
+                                          per depletion: no login handler runs while the vault is ready);
+      auth.runs_the_authentication_activity  then run_activity once: activity AUTHENTICATION, all handlers at once, with the
+                                          registry/settings/indices/memo given;
+      auth.populates_with_the_results     then vault.populate once, with exactly {str(handler id): credentials} of the activity's
+                                          results -- also when there are none ({}), so that the frozen API calls are released
+                                          (and fail) instead of hanging;
+      auth.returns_only_after_populate    a normal return implies wait -> activity -> populate happened, in this order: the vault
+                                          is ready again, so the next round's wait blocks until the next depletion (no spinning);
+      auth.failure_escalates              an error of the activity (ActivityError, anything else, cancellation) or of the vault
+                                          leaves authenticate as the same exception.
+    authenticator (loop contract on `while True`, one arbitrary round):
+      loop.one_authentication_per_round   a round is exactly one awaited authenticate(...);
+      loop.same_vault_and_registry        with the vault, registry, settings, indices and memo given to the authenticator;
+      loop.failure_escalates              an exception of a round ends the authenticator with that exception (C20: the failed
+                                          root task brings the operator down; C12: it does not spin on a failing login);
+      loop.never_returns                  there is no normal way out of the loop.
+    """
+    if vc.nondet(2, 'authenticate | authenticator') == 0:
+        return _n4_authenticate(vc)
+    return _n4_authenticator(vc)
+
+
+def _n4_world(vc):
+    W = Ghost(registry=Opaque('registry'), settings=Opaque('settings'), indices=Opaque('indices'), memo=Opaque('memo'))
+    W.empty0 = vc.bool('vault.is_empty()')
+
+    class Vault:
+        def is_empty(self):
+            return W.empty0
+
+        async def wait_for_emptiness(self):
+            vc.emit('wait_for_emptiness')
+            await suspend('vault.wait_for_emptiness')
+            vc.emit('wait_for_emptiness.returned')
+
+        async def populate(self, src):
+            vc.emit('populate', src)
+            await suspend('vault.populate')
+            vc.emit('populate.returned')
+    W.vault = Vault()
+    return W
+
+
+def _n4_authenticate(vc):
+    W = _n4_world(vc)
+    st = Ghost(raised=None, results=None, cancel=None)
+    h1, h2 = _HId('login-a'), _HId('login-b')
+    info1, info2 = Opaque('credentials-a'), Opaque('credentials-b')
+
+    async def run_activity(**kw):
+        vc.emit('run_activity', kw)
+        await suspend('run_activity')
+        k = vc.nondet(6, 'activity: no credentials / one / two / ActivityError / other error / cancelled')
+        if k <= 2:
+            st.results = [{}, {h1: info1}, {h1: info1, h2: info2}][k]
+            vc.emit('run_activity.returned')
+            return st.results
+        st.raised = [activities.ActivityError('login failed', outcomes={}), _Other('boom'), asyncio.CancelledError()][k - 3]
+        raise st.raised
+
+    def on_suspend(site):
+        if site.startswith('vault.') and vc.nondet(2, f'cancelled at {site}?') == 1:
+            st.cancel = (site, asyncio.CancelledError())
+            return st.cancel[1]
+    vc.used('activities.run_activity', 'U2a'); vc.used('credentials.Vault', 'N3')
+    ld = vc.load('kopf._core.engines.activities', 'authenticate', stubs={'run_activity': run_activity, 'logger': NullLogger()})
+    title = ['Authentication', 'Re-authentication'][vc.nondet(2, 'title')]
+    result, escaped = _run(vc, ld.fn(registry=W.registry, settings=W.settings, indices=W.indices, vault=W.vault, memo=W.memo,
+                                     _activity_title=title), on_suspend)
+    tr = vc.trace
+    names = names_of(tr)
+    vc.canary('canary.auth.never_fails', escaped is None)
+    # -- order
+    vc.ensure('auth.waits_for_emptiness_first', names[0] == 'wait_for_emptiness' and names.count('wait_for_emptiness') == 1)
+    if 'run_activity' in names or 'populate' in names:
+        first = min(names.index(n) for n in ('run_activity', 'populate') if n in names)
+        vc.ensure('auth.waits_for_emptiness_first', 'wait_for_emptiness.returned' in names[:first])
+    runs = [ev[1] for ev in tr if ev[0] == 'run_activity']
+    vc.ensure('auth.runs_the_authentication_activity', len(runs) <= 1)
+    for kw in runs:
+        vc.ensure('auth.runs_the_authentication_activity', kw.get('activity') is causes.Activity.AUTHENTICATION
+                  and kw.get('lifecycle') is lifecycles.all_at_once and kw.get('registry') is W.registry and kw.get('settings') is W.settings
+                  and kw.get('indices') is W.indices and kw.get('memo') is W.memo)
+    pops = [ev[1] for ev in tr if ev[0] == 'populate']
+    vc.ensure('auth.populates_with_the_results', len(pops) <= 1)
+    if st.cancel is not None and st.cancel[0] == 'vault.wait_for_emptiness':
+        vc.ensure('auth.failure_escalates', escaped is st.cancel[1] and not runs and not pops)
+        return ('cancelled-waiting',)
+    vc.ensure('auth.runs_the_authentication_activity', len(runs) == 1)
+    if st.raised is not None:
+        vc.ensure('auth.failure_escalates', escaped is st.raised)
+        return ('activity-failed', type(escaped).__name__)
+    # -- the activity returned: its results reach the vault, whatever they are
+    vc.canary('canary.auth.always_credentials', bool(st.results))
+    vc.ensure('auth.populates_with_the_results', len(pops) == 1 and 'run_activity.returned' in names[:names.index('populate')])
+    for src in pops:
+        want = {str(k): v for k, v in st.results.items()}
+        vc.ensure('auth.populates_with_the_results', isinstance(src, dict) and set(src) == set(want)
+                  and all(type(k) is str for k in src) and all(src[k] is want[k] for k in want))
+    if st.cancel is not None:
+        vc.ensure('auth.failure_escalates', escaped is st.cancel[1])
+        return ('cancelled-populating',)
+    vc.ensure('auth.failure_escalates', escaped is None)
+    vc.ensure('auth.returns_only_after_populate', result is None and
+              [n for n in names if n in ('wait_for_emptiness.returned', 'run_activity.returned', 'populate.returned')] ==
+              ['wait_for_emptiness.returned', 'run_activity.returned', 'populate.returned'])
+    return ('authenticated', len(st.results))
+
+
+def _n4_authenticator(vc):
+    W = _n4_world(vc)
+    st = Ghost(raised=None, since=0, susp=0)
+
+    async def authenticate(**kw):
+        vc.emit('authenticate', kw)
+        await suspend('authenticate')
+        k = vc.nondet(4, 'authenticate: returns / ActivityError / other error / cancelled')
+        if k:
+            st.raised = [activities.ActivityError('login failed', outcomes={}), _Other('boom'), asyncio.CancelledError()][k - 1]
+            raise st.raised
+        vc.emit('authenticate.returned')
+
+    def on_suspend(site):
+        st.susp += 1
+
+    def havoc(loc):
+        st.since, st.susp = len(vc.trace), 0
+        return {'counter': vc.int('counter')}
+
+    def round_ok(tr):
+        calls = [ev[1] for ev in tr if ev[0] == 'authenticate']
+        vc.ensure('loop.one_authentication_per_round', len(calls) == 1)
+        for kw in calls:
+            vc.ensure('loop.same_vault_and_registry', kw.get('vault') is W.vault and kw.get('registry') is W.registry
+                      and kw.get('settings') is W.settings and kw.get('indices') is W.indices and kw.get('memo') is W.memo)
+
+    def at_back(loc):
+        tr = vc.trace[st.since:]
+        round_ok(tr)
+        vc.ensure('loop.one_authentication_per_round', names_of(tr).count('authenticate.returned') <= 1 and st.susp > 0)
+        vc.ensure('loop.failure_escalates', st.raised is None)      # a failed round never reaches the next one
+
+    def on_exit(loc):
+        vc.ensure('loop.never_returns', st.raised is not None)
+    ld = vc.load('kopf._core.engines.activities', 'authenticator', stubs={'authenticate': authenticate, 'logger': NullLogger()},
+                 loops={1: LoopSpec('while True', name='forever', havoc=havoc, at_backedge=at_back, on_exit=on_exit,
+                                    at_entry=lambda loc: vc.ensure('loop.one_authentication_per_round', 'authenticate' not in names_of(vc.trace)))})
+    result, escaped = _run(vc, ld.fn(registry=W.registry, settings=W.settings, indices=W.indices, vault=W.vault, memo=W.memo), on_suspend)
+    # only the paths that leave the loop arrive here
+    vc.canary('canary.loop.never_fails', escaped is None)
+    vc.ensure('loop.never_returns', escaped is not None)
+    vc.ensure('loop.failure_escalates', st.raised is not None and escaped is st.raised)
+    round_ok(vc.trace[st.since:])
+    return ('authenticator', type(escaped).__name__)
+
+
+# =============================================================================================== D2w
+@harness('D2w', targets='kopf._core.engines.daemons._wait_for_instant_exit', props=['C09'],
+         clauses=['changes_nothing', 'no_wait_when_done', 'timeout_mode', 'cycles_mode', 'no_wait_without_settings'],
+         canaries=['canary.never_waits', 'canary.uses_all_cycles'],
+         trusted=['aiotasks.wait(tasks, timeout=T) by contract S4w: returns after a suspension once the tasks are done or T has elapsed',
+                  'asyncio.sleep(0): one zero-time cycle of the event loop (a suspension point)',
+                  'asyncio.Task.done() is monotone and changes only at suspension points (SymTask)'],
+         assumes=['settings.background.instant_exit_zero_time_cycles is None or an int in 0..3 (the for-loop over range() runs natively); '
+                  'instant_exit_timeout is None or any number, 0 included'])
+def D2w(vc):
+    """
+    daemons._wait_for_instant_exit (the contract D2 trusts: "only waits, changes nothing itself"; settings docs of
+    background.instant_exit_timeout / instant_exit_zero_time_cycles):
+      changes_nothing        no stop flag is raised and the task is not cancelled here; nothing is raised;
+      no_wait_when_done      a daemon that has already exited costs no suspension at all;
+      timeout_mode           with a timeout set (0 included): exactly one aiotasks.wait([the daemon's task], timeout=<that value>)
+                             and no zero-time cycles ("if an instant-exit timeout is set, the zero-time cycles are not used");
+      cycles_mode            without a timeout: at most `cycles` asyncio.sleep(0), and none after the task was seen done
+                             ("if they exit earlier, extra cycles are not used"); all of them when it keeps running;
+      no_wait_without_settings   neither set: returns at once.
+    So the call is bounded by T or by `cycles` zero-time cycles: stopping cannot stall here (C09).
+    """
+    from contracts.c09_daemons import mk_daemon
+    clock = Clock()
+    d = mk_daemon(vc, clock, sym=False)
+    timeout = vc.opt('instant_exit_timeout', vc.real)
+    cycles = [None, 0, 1, 2, 3][vc.nondet(5, 'instant_exit_zero_time_cycles: None / 0..3')]
+    settings = Opaque('settings', background=Opaque('background', instant_exit_timeout=timeout, instant_exit_zero_time_cycles=cycles))
+    done0 = d.task.state
+    st = Ghost(susp=0, seen_done_at=None)
+
+    def on_suspend(site):
+        st.susp += 1
+        clock.advance()
+        d.task.havoc()
+        d.stopper.havoc()
+        vc.emit('suspend', site, d.task.state)
+
+    async def wait(tasks, *, timeout=None, return_when=asyncio.ALL_COMPLETED):
+        vc.emit('wait', list(tasks), timeout, return_when)
+        await suspend('aiotasks.wait')
+        return set(), set()
+
+    async def sleep(delay, *a):
+        vc.emit('sleep0', delay, d.task.state)
+        await suspend('asyncio.sleep')
+    vc.used('aiotasks.wait', 'S4w')
+    ld = vc.load('kopf._core.engines.daemons', '_wait_for_instant_exit', stubs={'aiotasks.wait': wait, 'asyncio.sleep': sleep})
+    result, escaped = _run(vc, ld.fn(settings=settings, daemon=d), on_suspend)
+    tr = vc.trace
+    names = names_of(tr)
+    waits = [ev for ev in tr if ev[0] == 'wait']
+    sleeps = [ev for ev in tr if ev[0] == 'sleep0']
+    vc.ensure('changes_nothing', 'stopper.set' not in names and 'task.cancel' not in names and escaped is None and result is None)
+    vc.ensure('no_wait_when_done', Implies(done0, st.susp == 0))
+    vc.canary('canary.never_waits', st.susp == 0)
+    if timeout is not None:
+        vc.ensure('timeout_mode', not sleeps and len(waits) <= 1)
+        vc.ensure('timeout_mode', Implies(Not(done0), len(waits) == 1))
+        for ev in waits:
+            vc.ensure('timeout_mode', len(ev[1]) == 1 and ev[1][0] is d.task and ev[2] is timeout and ev[3] == asyncio.ALL_COMPLETED)
+    elif cycles is not None:
+        vc.ensure('cycles_mode', not waits and len(sleeps) <= cycles)
+        for ev in sleeps:
+            vc.ensure('cycles_mode', ev[1] == 0)
+            vc.ensure('cycles_mode', Not(ev[2]))                    # never sleeps on with the task known to be done
+        # it gives up early only because the task is done
+        vc.ensure('cycles_mode', Or(d.task.state, len(sleeps) == cycles))
+        vc.canary('canary.uses_all_cycles', len(sleeps) == cycles)
+    else:
+        vc.ensure('no_wait_without_settings', st.susp == 0)
+    return ('waited', st.susp)
+
+
+# =============================================================================================== H8c
+@harness('H8c', targets='kopf._core.reactor.subhandling.subhandling_context', props=['C02'],
+         clauses=['fresh_registry_and_flag_for_the_body', 'implicit_execute_unless_explicit', 'implicit_execute_in_context',
+                  'not_after_a_failed_body', 'errors_propagate', 'context_restored'],
+         canaries=['canary.always_implicit', 'canary.never_raises'],
+         trusted=['subhandling.execute by contract H8 (no arguments: runs the sub-handlers accumulated in subregistry_var once, raises '
+                  'HandlerChildrenRetry while some are unfinished)', 'contextvars by contract (CtxVar); invocation.context (real code, inlined)',
+                  'contextlib.asynccontextmanager (real)'])
+def H8c(vc):
+    """
+    subhandling.subhandling_context -- the extra context in which execute_handler_once/invoke_handler (X4) run a handler that may
+    have sub-handlers (docs/handlers.rst "Sub-handlers"; docstring of kopf.execute: "If the call to this method for the
+    sub-handlers is not done explicitly in the handler, it is done implicitly after the handler is exited. One way or another,
+    it is executed for the sub-handlers"):
+      fresh_registry_and_flag_for_the_body  the handler body runs with subregistry_var = a NEW, empty ChangingRegistry made for
+                               this invocation (not the enclosing handler's) and subexecuted_var = False;
+      implicit_execute_unless_explicit      after a body that returned normally: if the flag says execute() already ran, it is not
+                               run again; otherwise, if sub-handlers were registered, execute() -- without arguments -- is
+                               awaited exactly once (with an empty registry it may or may not be: nothing to run either way);
+      implicit_execute_in_context           and it runs while this invocation's registry and flag are still in place;
+      not_after_a_failed_body  a body that raised is not followed by an implicit execution; its exception propagates unchanged;
+      errors_propagate         what the implicit execute() raises (HandlerChildrenRetry: the parent stays unfinished, X1/H8)
+                               leaves the context unchanged -- it is not swallowed;
+      context_restored         afterwards both variables are what they were before (unset stays unset).
+    """
+    nested = vc.nondet(2, 'top-level handler / nested in another sub-handling context') == 1
+    outer_reg, outer_flag = Opaque('outer-registry'), vc.bool('outer subexecuted') if nested else None
+    cells = {'subregistry_var': CtxVar(vc, 'subregistry_var', *([outer_reg] if nested else [])),
+             'subexecuted_var': CtxVar(vc, 'subexecuted_var', *([outer_flag] if nested else []))}
+    made = []
+
+    class Registry:
+        def __init__(self, *a, **kw):
+            self.handlers = []
+            made.append(self)
+
+        def append(self, h): self.handlers.append(h)
+
+    def snapshot():
+        return {k: c.value for k, c in cells.items()}
+    before = snapshot()
+    st = Ghost(body_exc=None, exec_exc=None, at_body=None, at_exec=None, flag_at_end=None, registered=False)
+    body_kind = ['plain', 'registers', 'registers+explicit', 'explicit-only', 'raises', 'registers+raises'][vc.nondet(6, 'the handler body')]
+
+    async def execute(*a, **kw):
+        st.at_exec = snapshot()
+        vc.emit('execute', a, kw)
+        await suspend('execute')
+        k = vc.nondet(3, 'implicit execute: returns / HandlerChildrenRetry / cancelled')
+        if k:
+            st.exec_exc = [execution.HandlerChildrenRetry('unfinished', delay=vc.opt('delay', vc.real)), asyncio.CancelledError()][k - 1]
+            raise st.exec_exc
+    vc.used('subhandling.execute', 'H8')
+    stubs = dict(cells)
+    stubs.update({'registries.ChangingRegistry': Registry, 'execute': execute})
+    ld = vc.load('kopf._core.reactor.subhandling', 'subhandling_context', stubs=stubs)
+
+    async def scenario():
+        async with ld.fn():
+            st.at_body = snapshot()
+            vc.emit('body')
+            if 'registers' in body_kind:
+                cells['subregistry_var'].get().append(Opaque('sub-handler'))      # what @kopf.subhandler does
+                st.registered = True
+            if 'explicit' in body_kind:
+                cells['subexecuted_var'].set(True)                                # what an explicit kopf.execute() does (H8.implicit_once)
+            st.flag_at_end = cells['subexecuted_var'].value
+            if 'raises' in body_kind:
+                st.body_exc = _Other('the handler failed')
+                raise st.body_exc
+            vc.emit('body.end')
+    result, escaped = _run(vc, scenario())
+    tr = vc.trace
+    names = [n for n in names_of(tr) if not n.startswith('var.')]
+    execs = [ev for ev in tr if ev[0] == 'execute']
+    reg = st.at_body['subregistry_var'] if st.at_body else None
+    vc.ensure('fresh_registry_and_flag_for_the_body', st.at_body is not None and isinstance(reg, Registry) and reg is not outer_reg
+              and len(made) == 1 and reg is made[0] and st.at_body['subexecuted_var'] is False)
+    vc.ensure('context_restored', all(snapshot()[k] is before[k] for k in before))
+    vc.canary('canary.never_raises', escaped is None)
+    vc.canary('canary.always_implicit', len(execs) == 1)
+    if st.body_exc is not None:
+        vc.ensure('not_after_a_failed_body', not execs and escaped is st.body_exc)
+        return ('body-failed', len(execs))
+    explicit = st.flag_at_end is True
+    vc.ensure('implicit_execute_unless_explicit', len(execs) <= 1 and not (explicit and execs))
+    vc.ensure('implicit_execute_unless_explicit', len(execs) == 1 if (st.registered and not explicit) else True)
+    for ev in execs:
+        vc.ensure('implicit_execute_unless_explicit', ev[1] == () and all(v is None for v in ev[2].values()))
+        vc.ensure('implicit_execute_in_context', names.index('execute') > names.index('body.end')
+                  and st.at_exec['subregistry_var'] is reg and st.at_exec['subexecuted_var'] is False)
+    vc.ensure('errors_propagate', escaped is st.exec_exc)
+    return ('body-ok', len(execs), type(escaped).__name__)
